@@ -79,7 +79,7 @@ class Universe:
                 data = b""
             else:
                 seed = ("content-%d-%d|" % (b, n)).encode()
-                size = (n - 1) * self.blksize + 1 + (b % 7)
+                size = (n - 1) * self.blksize + 64 + (b % 7)
                 data = (seed * (size // len(seed) + 1))[:size]
             self._content[key] = data
             self._nchunks.setdefault(b, n)
